@@ -369,6 +369,21 @@ pub fn run(rep: &mut Report) {
     let hs = huge_series();
     rep.bound("huge_series", hs.len() as u64);
     sweep(rep, "c15.huge", hs.len() as u64, |i, out| j_series(&hs[i as usize], &leap, out));
+    // order independence: sixteen series (same-scale and mixed-scale, starts mirrored about the reference epoch), in
+    // every order
+    {
+        let x = 7_305 * 86_400 * NS + 123_456_789;
+        let mut os: Vec<Series> = vec![];
+        for (ts, end_ts) in [(TimeScale::TAI, TimeScale::TAI), (TimeScale::UTC, TimeScale::TAI), (TimeScale::GPST, TimeScale::UTC), (TimeScale::TAI, TimeScale::GPST)] {
+            for start in [x, -x] {
+                for incl in [false, true] {
+                    os.push(Series { ts, start, end_ts, span: 10 * NS, step: NS, incl });
+                }
+            }
+        }
+        let lp = &leap;
+        crate::engine::order_pairs(rep, "c15.order", os.len() as u64, |i, out| j_series(&os[i as usize], lp, out));
+    }
     if !q {
         let ls = long_series();
         rep.bound("long_series", ls.len() as u64);
